@@ -814,3 +814,10 @@ func (c *Cluster) ClearBadFrames() {
 	c.BadFrames = nil
 	c.mu.Unlock()
 }
+
+// Control reports whether the connection registered for events.
+func (sc *ServerConn) Control() bool {
+	sc.mu.Lock()
+	defer sc.mu.Unlock()
+	return sc.IsControl
+}
